@@ -42,7 +42,8 @@ class StopMonitor:
                     if dq['app'] == other:
                         src.check('higher-application-stop-sequence-finished-first', not self.active(q), sig=sig,
                                   namespec=ns, waiting=q)
-        self.status[(ns, ident)] = 'requested'
+        # a request sent to an instance that is already lost (not invalidated yet) cannot be pending anywhere
+        self.status[(ns, ident)] = 'stopped' if ident in self.lost else 'requested'
 
     def on_event(self, ns, ident, state, forced=False):
         if forced:
@@ -65,7 +66,7 @@ class StopMonitor:
                 self.status[key] = 'stopped'
 
 
-def _drain(core, sim, mon, cursor, beh, lost_ids, slow, orders):
+def _drain(core, sim, mon, cursor, beh, lost_ids, slow, orders, reached=None):
     log = core.rpc_handler.out
     batch = []
     while cursor[0] < len(log):
@@ -74,6 +75,10 @@ def _drain(core, sim, mon, cursor, beh, lost_ids, slow, orders):
         if name == 'send_stop_process':
             mon.on_request(a[0], a[1])
             batch.append((a[0], a[1]))
+        elif name == 'stop_emission':
+            # what Supvisors itself knew when it sent the request
+            mon.src.check('stop-sent-where-supvisors-lists-the-process-running', a[0] in a[2],
+                          sig=f'target-{a[3]}', namespec=a[1], target=a[0], running_identifiers=a[2])
         elif name == 'send_start_process':
             mon.src.check('ending-phase-starts-nothing', False, sig='start', namespec=a[1])
         elif name == 'forced_marker':
@@ -91,6 +96,10 @@ def _drain(core, sim, mon, cursor, beh, lost_ids, slow, orders):
                                       sig=f'seq={seq}', namespec=q, host=h)
     for ident, ns in batch:
         if ident in lost_ids:
+            if reached and reached(ident, ns):
+                # the request reached the dying instance: the process was STOPPING when it vanished
+                mon.on_event(ns, ident, PS.STOPPING)
+                sim.event(ident, ns, PS.STOPPING)
             continue
         b = beh[ns]
         if b == 'silent':
@@ -147,6 +156,15 @@ def ending(src, napps=1, nprocs=2, order=('restart', 'shutdown'), rounds=10, los
         core.rpc_handler.out.append(('forced_marker', (process.namespec, forced_state, reason)))
         return real_force(process, identifier, event_time, forced_state, reason)
     core.listener.force_process_state = force
+    real_stop = core.rpc_handler.send_stop_process
+
+    def send_stop(identifier, namespec):
+        group, name = namespec.split(':')
+        proc = core.context.applications[group].processes[name]
+        core.rpc_handler.out.append(('stop_emission', (identifier, namespec, sorted(proc.running_identifiers),
+                                                       core.context.instances[identifier].state.name)))
+        return real_stop(identifier, namespec)
+    core.rpc_handler.send_stop_process = send_stop
     what = src.pick('order', list(order))
     lose_at = src.pick('peer_lost_at_round', [None, 0, 1]) if loss and master else None
     core.rpc_handler.out.clear()
@@ -180,20 +198,10 @@ def ending(src, napps=1, nprocs=2, order=('restart', 'shutdown'), rounds=10, los
     for r in range(rounds):
         if lose_at == r:
             lost_ids.append(ids[1])
-            log = core.rpc_handler.out
-            while cursor[0] < len(log):
-                name, a = log[cursor[0]]
-                cursor[0] += 1
-                if name == 'send_stop_process':
-                    mon.on_request(a[0], a[1])
-                    if a[0] == ids[1] and src.pick_flag(f'lost_request_reached_{a[1]}_{cursor[0]}'):
-                        # the request reached the dying instance: the process was STOPPING when it vanished
-                        mon.on_event(a[1], a[0], PS.STOPPING)
-                        sim.event(a[0], a[1], PS.STOPPING)
-                elif name == 'forced_marker':
-                    mon.on_event(a[0], None, a[1], forced=True)
-                elif name in ('send_restart', 'send_shutdown'):
-                    orders.append((name, a[0], core.stopper.in_progress()))
+            # requests in flight to the dying instance are never answered (they may have reached it); the requests to
+            # the survivors are answered as usual
+            _drain(core, sim, mon, cursor, beh, lost_ids, slow, orders,
+                   reached=lambda ident, ns: src.pick_flag(f'lost_request_reached_{ns}'))
             core.fsm.on_instance_failure(core.context.instances[ids[1]])
             mon.on_host_lost(ids[1])
         _drain(core, sim, mon, cursor, beh, lost_ids, slow, orders)
